@@ -14,17 +14,19 @@ import Distill.Props.C17Fam3
 import Distill.Props.C17Fam4
 import Distill.Props.C17Fam5
 import Distill.Props.C17Fam6
+import Distill.Props.C17Fam7
+import Distill.Props.C17Fam8
 namespace Distill.C17
 open Distill.Pg Distill.Gen
 
-theorem families_listed : pagerFamilies = [fam0, fam1, fam2, fam3, fam4, fam5, fam6] := rfl
+theorem families_listed : pagerFamilies = [fam0, fam1, fam2, fam3, fam4, fam5, fam6, fam7, fam8] := rfl
 
 /-- **Conventional pagers.** -/
 theorem conventional_pagers_cells : ∀ f ∈ pagerFamilies, ∀ c ∈ allCells, cellOk f c.1 c.2 = true := by
   intro f hf
   rw [families_listed] at hf
   simp only [List.mem_cons, List.not_mem_nil, or_false] at hf
-  rcases hf with h | h | h | h | h | h | h <;> subst h
+  rcases hf with h | h | h | h | h | h | h | h | h <;> subst h
   · exact fam0_cells
   · exact fam1_cells
   · exact fam2_cells
@@ -32,13 +34,15 @@ theorem conventional_pagers_cells : ∀ f ∈ pagerFamilies, ∀ c ∈ allCells,
   · exact fam4_cells
   · exact fam5_cells
   · exact fam6_cells
+  · exact fam7_cells
+  · exact fam8_cells
 
 /-- **… and on page 1 addressed without the parameter.** -/
 theorem first_page_bare_cells : ∀ f ∈ pagerFamilies, ∀ n ∈ allN, bareOk f n = true := by
   intro f hf
   rw [families_listed] at hf
   simp only [List.mem_cons, List.not_mem_nil, or_false] at hf
-  rcases hf with h | h | h | h | h | h | h <;> subst h
+  rcases hf with h | h | h | h | h | h | h | h | h <;> subst h
   · exact fam0_bare
   · exact fam1_bare
   · exact fam2_bare
@@ -46,6 +50,8 @@ theorem first_page_bare_cells : ∀ f ∈ pagerFamilies, ∀ n ∈ allN, bareOk 
   · exact fam4_bare
   · exact fam5_bare
   · exact fam6_bare
+  · exact fam7_bare
+  · exact fam8_bare
 
 theorem first_page_bare (f : PagerFamily) (hf : f ∈ pagerFamilies) (n : Nat) (hn : 2 ≤ n ∧ n ≤ 12) :
     resultBare f n = expected f.pages n 1 := by
@@ -112,7 +118,7 @@ example : prevNextResult [] [⟨"http://e.com/a?page=1", 25⟩, ⟨"http://e.com
     "http://e.com/a?page=3" := by decide +kernel
 
 /-- the table is not empty: 7 families, 77 cells each -/
-theorem coverage : pagerFamilies.length = 7 ∧ allCells.length = 77 := by decide +kernel
+theorem coverage : pagerFamilies.length = 9 ∧ allCells.length = 77 := by decide +kernel
 
 /-! ### how the current page, shown as plain text, is read -/
 
